@@ -335,6 +335,34 @@ func runFullDiskCase(t *rapid.T, fc fullCfg) {
 		return x.Rename(fd, fn, td, tn)
 	})
 	acts["rename2"] = acts["rename"]
+	// a directory moves to another parent (the target directory may have to grow, which can fail half-way on a full disk)
+	acts["movedir"] = wrap("MOVEDIR", func(t *rapid.T) error {
+		var srcs []*MNode
+		for _, d := range x.M.LiveKind(nt.NF3DIR) {
+			if d != x.M.Root {
+				srcs = append(srcs, d)
+			}
+		}
+		if len(srcs) == 0 {
+			return nil
+		}
+		src := pick(t, srcs, "srcdir")
+		var tds []*MNode
+		for _, d := range x.M.LiveKind(nt.NF3DIR) {
+			if d != src.Parent && !x.RenameIsKnownFinding(src.Parent, src.Name, d) {
+				tds = append(tds, d)
+			}
+		}
+		if len(tds) == 0 {
+			return nil
+		}
+		td := pick(t, tds, "todir")
+		tn := g.NewName(t, td)
+		if rapid.IntRange(0, 2).Draw(t, "overwrite") == 0 {
+			tn = g.OldName(t, td)
+		}
+		return x.Rename(LiveRef(src.Parent), src.Name, LiveRef(td), tn)
+	})
 	// a directory whose last block is exactly full: the next new name needs another block
 	acts["fulldir"] = wrap("FULLDIR", func(t *rapid.T) error {
 		dr := dirOf(t)
